@@ -126,3 +126,7 @@ Definition corr_pptx_pos (c : list (str * option Z) * xml * (Z * Z)) : bool :=
 Definition corr_pptx_slides (is_ws : N -> bool) (c : list (str * option Z) * list xml * option (list (list (list str)))) : bool :=
   let '(it, trees, r) := c in
   opt_eqb tables_eqb (Some (flat_map (pptx_slide_tables is_ws (lookup_int it)) trees)) r.
+
+(* XLS: a whole workbook (every sheet as handed over by xlrd) -> the tables of all sheets *)
+Definition corr_xls_wb (c : list (list (list lcell)) * list (list (list val))) : bool :=
+  list_eqb vgrid_eqb (xls_workbook_tables (fst c)) (snd c).
